@@ -46,9 +46,10 @@ type GNMIDevice struct {
 }
 
 type gnmiSub struct {
-	ch   chan *gnmi.Notification
-	enc  gnmi.Encoding
-	done chan struct{}
+	ch    chan *gnmi.Notification
+	enc   gnmi.Encoding
+	under []IPath
+	done  chan struct{}
 }
 
 func NewGNMIDevice(initial Conf) *GNMIDevice {
@@ -533,7 +534,7 @@ func (d *GNMIDevice) Subscribe(stream gnmi.GNMI_SubscribeServer) error {
 	if len(under) == 0 {
 		under = []IPath{{}}
 	}
-	sub := &gnmiSub{ch: make(chan *gnmi.Notification, 4096), enc: sl.GetEncoding(), done: make(chan struct{})}
+	sub := &gnmiSub{ch: make(chan *gnmi.Notification, 4096), enc: sl.GetEncoding(), under: under, done: make(chan struct{})}
 	// the initial state and the registration happen atomically with respect to Apply
 	d.mu.Lock()
 	initial := d.notificationsFor(d.Config, under, sl.GetEncoding(), false)
@@ -592,15 +593,22 @@ func (d *GNMIDevice) Apply(deletes []IPath, updates Conf) int {
 	for s := range d.subs {
 		var ns []*gnmi.Notification
 		if len(updates) > 0 {
-			ns = d.notificationsFor(updates, []IPath{{}}, s.enc, false)
+			ns = d.notificationsFor(updates, s.under, s.enc, false)
 		}
-		if len(deletes) > 0 {
+		var dels []*gnmi.Path
+		for _, dp := range deletes {
+			for _, u := range s.under {
+				if u.Covers(dp) || dp.Covers(u) {
+					dels = append(dels, dp.GNMI())
+					break
+				}
+			}
+		}
+		if len(dels) > 0 {
 			if len(ns) == 0 {
 				ns = []*gnmi.Notification{{Timestamp: time.Now().UnixNano()}}
 			}
-			for _, dp := range deletes {
-				ns[0].Delete = append(ns[0].Delete, dp.GNMI())
-			}
+			ns[0].Delete = append(ns[0].Delete, dels...)
 		}
 		for _, x := range ns {
 			s.ch <- x
